@@ -235,6 +235,18 @@ impl<'a, 'tcx> BodyCx<'a, 'tcx> {
                     }
                 }
                 let is_scalar = ty.is_integral() || ty.is_bool() || ty.is_char();
+                if ty.is_floating_point() && !matches!(c.const_, Const::Unevaluated(uv, _) if uv.promoted.is_some()) {
+                    // float literals / constants: exported under their own key as shortest round-trip decimal text
+                    if let Some(si) = c.const_.try_eval_scalar_int(tcx, self.env) {
+                        let size = si.size();
+                        let v = if size.bytes() == 8 {
+                            format!("{:?}", f64::from_bits(si.to_uint(size) as u64))
+                        } else {
+                            format!("{:?}", f32::from_bits(si.to_uint(size) as u32))
+                        };
+                        let _ = write!(o, ",\"fv\":{}", esc(&v));
+                    }
+                }
                 if is_scalar {
                     // Promoteds of generic bodies cannot be evaluated here; skip them.
                     let skip = matches!(c.const_, Const::Unevaluated(uv, _) if uv.promoted.is_some());
